@@ -659,7 +659,9 @@ Definition row_taxes (d : doc) : list (list combo) :=
 Definition b_cats (d : doc) : Q :=
   row_weight (map (fun b => b + 1) (row_bounds d)) (row_taxes d) + nQ (ncombos (row_taxes d)).
 Definition b_tax (d : doc) : Q := 2 * b_cats d.
-Definition b_total (d : doc) : Q := b_total1 d + (b_cats d + 1).
+(* the tax taken out of tax-inclusive prices; nothing when prices do not include a tax *)
+Definition b_inc (d : doc) : Q := match d_pit d with [] => 0 | _ :: _ => b_cats d + 1 end.
+Definition b_total (d : doc) : Q := b_total1 d + b_inc d.
 Definition b_twt (d : doc) : Q := b_total d + (b_tax d + 1).
 Definition b_payable (d : doc) : Q := b_twt d + 1.
 
@@ -778,16 +780,16 @@ Proof.
   set (inc' := match match d_pit d with [] => None | _ :: _ => match s_find_cat (d_pit d) cts' with
                | Some ct => Some (cat_amount noround false c ct) | None => None end end with
               | Some ti => ti | None => 0 end).
-  assert (HI : cl ((b_cats d + 1) * eps c) inc inc').
-  { unfold inc, inc'. pose proof (nQ_nonneg (ncombos (row_taxes d))).
+  assert (HI : cl (b_inc d * eps c) inc inc').
+  { unfold inc, inc', b_inc. pose proof (nQ_nonneg (ncombos (row_taxes d))).
+    destruct (d_pit d) as [|b0 bs0]; [setoid_replace (0 * eps c) with 0 by ring; apply cl_refl|].
     assert (Z : cl ((b_cats d + 1) * eps c) 0 0) by (eapply cl_weaken; [apply cl_refl|nra]).
-    destruct (d_pit d) as [|b0 bs0]; [exact Z|].
     pose proof (find_cat_close c (b0 :: bs0) cts cts' SH) as K.
     destruct (s_find_cat (b0 :: bs0) cts); destruct (s_find_cat (b0 :: bs0) cts'); try contradiction; [|exact Z].
     setoid_replace ((b_cats d + 1) * eps c) with (b_cats d * eps c + eps c) by ring.
     apply (cl_rnd_w c); [exact W|]. eapply cl_weaken; [exact K|exact BCv]. }
   assert (HT : cl (b_total d * eps c) (t1 - inc) (t1' - inc')).
-  { unfold b_total. setoid_replace ((b_total1 d + (b_cats d + 1)) * eps c) with (b_total1 d * eps c + (b_cats d + 1) * eps c) by ring.
+  { unfold b_total. setoid_replace ((b_total1 d + b_inc d) * eps c) with (b_total1 d * eps c + b_inc d * eps c) by ring.
     apply cl_minus; assumption. }
   assert (HX : cl (b_tax d * eps c) (s_tax rnd false c cts) (s_tax noround false c cts')).
   { eapply cl_weaken; [exact TX|]. unfold b_tax. lra. }
@@ -840,6 +842,9 @@ Proof.
     apply in_map_iff in I; destruct I as (z & <- & _); [apply e_line_nonneg|unfold b_drow; lra|unfold b_drow; lra].
 Qed.
 
+Lemma b_inc_nonneg d : 0 <= b_inc d.
+Proof. unfold b_inc. pose proof (b_cats_nonneg d). destruct (d_pit d); lra. Qed.
+
 Lemma eps_unit c : eps c == (1 # 200) * unitQ c.
 Proof. unfold eps. rewrite unitQ_add. change (unitQ 2) with (1 # 100). ring. Qed.
 
@@ -855,11 +860,11 @@ Lemma precise_error_bound d t : simple_doc d -> b_payable d < 100 -> calculate d
 Proof.
   intros S B H. destruct (precise_error_bound_budget d t S H) as (y & E & K). exists y. split; [exact E|].
   cbv zeta in K. destruct K as (K1 & K2 & K3 & K4 & K5).
-  pose proof (b_cats_nonneg d) as CN. pose proof (e_sum_nonneg (d_lines d)) as EN.
+  pose proof (b_cats_nonneg d) as CN. pose proof (b_inc_nonneg d) as IN. pose proof (e_sum_nonneg (d_lines d)) as EN.
   pose proof (nQ_nonneg (length (d_discounts d))) as N1. pose proof (nQ_nonneg (length (d_charges d))) as N2.
   pose proof (unitQ_pos (d_c d)) as U. rewrite eps_unit in K1, K2, K3, K4, K5.
   unfold b_payable, b_twt, b_tax, b_total, b_total1, b_drow in *.
-  set (u := unitQ (d_c d)) in *. set (es := e_sum (d_lines d)) in *. set (bc := b_cats d) in *.
+  set (u := unitQ (d_c d)) in *. set (es := e_sum (d_lines d)) in *. set (bc := b_cats d) in *. set (bi := b_inc d) in *.
   set (n1 := nQ (length (d_discounts d))) in *. set (n2 := nQ (length (d_charges d))) in *.
   assert (0 <= n1 * (es + 1)) by nra. assert (0 <= n2 * (es + 1)) by nra.
   set (m1 := n1 * (es + 1)) in *. set (m2 := n2 * (es + 1)) in *.
